@@ -307,6 +307,10 @@ impl NodeIdxIter {
     { unimplemented!() }
 }
 
+/// `std::thread::panicking()`: whether the current thread is unwinding - a fact about the caller's situation, unconstrained
+/// (code that behaves differently while unwinding is verified for both answers)
+pub assume_specification [std::thread::panicking] () -> bool;
+
 /// `cfg!(debug_assertions)` of the build: unconstrained, so code with `debug_assert!` (rule R26) is verified for both
 /// profiles - its condition is evaluated only where this is true.
 #[verifier::external_body]
